@@ -21,6 +21,7 @@ RULE += ' 30% of the datasets are read through a copy.copy/deepcopy of the sourc
 RULE += ' Adjustment ratios include 0.999992 and 1.000004; 5% of the datasets quote whole numbers of a few billion in every price column; 12% start between 1958 and 1969.'
 RULE += ' 30% of the handlers first served another feed and were then re-pointed (handler.data_sources = [...]); a source built on a directory BEFORE its files were rewritten must keep answering from what it read.'
 RULE += ' Round 11: a fifth of the files start with a UTF-8 byte order mark, a fifth have quoted column names; every seventh bar has Volume 0; 40% of the dataset directories have glob characters or a blank in their name.'
+RULE += ' Round 12: for half of the datasets with an odd number of files, every question after the sources were built is asked with warnings escalated to errors.'
 ASSUMPTIONS = [
     'unique dates per file; Close and Adj Close are missing together (otherwise "scaled by adjusted-close/close" has no single reading)',
     'values compared at 1e-12 relative (one division and one multiplication in the adjustment)',
